@@ -648,6 +648,7 @@ func TestGroth16Soundness(t *testing.T) {
 	g := genCase(curvesForTier())
 	rec.Check(t, "g16", ev.N(220, 12000), func(rt *rapid.T) {
 		c := g.Draw(rt, "case")
+		rec.Begin("g16", c)
 		rec.Report(rt, "g16", c, run(c, rec))
 	})
 }
